@@ -45,6 +45,10 @@ Definition lshift_raw (f : fmt) (c n : Z) : Z :=
 Definition fxp_lshift (m : shmode) (f : fmt) (c n : Z) : outcome (fmt * wres) :=
   let f' := lshift_fmt m f [c] n in
   bind (set_val_real f' Trunc Saturate true (raw_arr f' (lshift_raw f c n)) VInt) (fun w => Ok (f', w)).
+(* x << n on an array: one word for all elements (the largest magnitude decides), every element shifted *)
+Definition fxp_lshift_arr (m : shmode) (f : fmt) (codes : list Z) (n : Z) : outcome (fmt * wres) :=
+  let f' := lshift_fmt m f codes n in
+  bind (set_val_real f' Trunc Saturate true (raw_arr_list f' (map (fun c => lshift_raw f c n) codes)) VInt) (fun w => Ok (f', w)).
 Definition fxp_rshift (m : shmode) (f : fmt) (c n : Z) : outcome (fmt * wres) :=
   bind (rshift_fmt_codes m f [c] n) (fun fc =>
   match m, snd fc with
